@@ -19,7 +19,7 @@ FUNCTIONS = ["FmtStr.split", "FmtStr.splitlines", "FmtStr.ljust", "FmtStr.rjust"
              "FmtStr.shared_atts", "fmtstr", "FmtStr.__getitem__", "FmtStr.new_with_atts_removed", "FmtStr.__add__", "FmtStr.s"]
 BOUNDS = ("f: 1..2 runs, total text length <= 3 (quick) / 4 (thorough), every character symbolic over the instance's alphabet "
           "(letters a b A, ',', ' ', newline, CR; digits for zfill/isdigit); widths symbolic 0..len+2; method + concrete "
-          "arguments from a 60-entry catalogue (native split / regex split / splitlines / ljust / rjust and 25 delegated "
+          "arguments from a 65-entry catalogue (native split / regex split / splitlines / ljust / rjust and 25 delegated "
           "str methods)")
 STUBS = ["CrossHair's models of the str methods and of re (violations are replayed with CPython's str / re)"]
 
@@ -45,6 +45,9 @@ CATALOGUE = (
     + [(m, "value", (), "aA1 ") for m in ("isdigit", "isalpha", "isspace", "isupper", "islower", "isalnum")]
     + [("partition", "value", (",",), "ab,"), ("rpartition", "value", (",",), "ab,")]
     + [("encode", "value", ("utf8",), "abé")]
+    + [("split", "pieces", (".",), "ab."), ("split", "pieces", ("|",), "a|b"), ("split", "pieces_regex", ("a|b",), "ab|")]
+    # every line boundary str.splitlines knows besides \n and \r
+    + [("splitlines", "lines", (ke,), "a\x0b\x0c\x1c\x1d\x1e\x85\u2028\u2029") for ke in (False, True)]
 )
 
 
@@ -74,6 +77,14 @@ def instances(tier, seed):
                     out.append({"name": "m%02d-%s-K%d-l%d" % (ci, name, K, lay), "fn": "method", "timeout": T,
                                 "cost": 5 if "regex" in kind or kind == "pieces" else 1,
                                 "params": {"ci": ci, "K": K, "L": L, "layout": lay}})
+    # history twins: the same method was called before on the same value with the OTHER mode / other arguments (literal vs
+    # regex separator, keepends, width): the second result must not depend on the first call
+    for ci, (name, kind, args, alpha) in enumerate(CATALOGUE):
+        if kind in ("pieces", "pieces_regex", "lines") or (kind == "textw" and alpha != "WIDE" and name not in SLOW):
+            if tier == "quick" and kind == "pieces" and args[0] not in (".", "|", ",", "a"):
+                continue
+            out.append({"name": "m%02d-%s-K1-l0-primed" % (ci, name), "fn": "method", "timeout": T, "cost": 5,
+                        "params": {"ci": ci, "K": 1, "L": L, "layout": 0, "prime": True}})
     # a method applied to a PIECE of a FmtStr whose own views were already used (history of three steps)
     for lay in ((0,) if tier == "quick" else (0, 1)):
         for second in ("ljust", "center*", "strip", "replace"):
@@ -138,6 +149,21 @@ def _call(obj, name, kind, args, w):
     if kind == "lines":
         return m(args[0])
     return m(*args)
+
+
+def _prime(f, name, kind, args, w):
+    """history: an earlier call of the same method on the same value in the other mode (its result is not looked at)"""
+    try:
+        if kind == "pieces":
+            f.split(args[0], regex=True)
+        elif kind == "pieces_regex":
+            f.split(args[0])
+        elif kind == "lines":
+            f.splitlines(not args[0])
+        elif kind == "textw":
+            _call(f, name, kind, args, w + 1)
+    except Exception:      # noqa - e.g. a separator that is not a valid pattern
+        pass
 
 
 def _scells(f):
@@ -226,6 +252,8 @@ def method(t0: str, t1: str, w: int) -> bool:
         e = re.split(args[0], text)
     else:
         e = _call(text, name, kind, args, w)
+    if P.get("prime"):
+        _prime(f, name, kind, args, w)
     r = _call(f, name, kind, args, w)
     ok = _judge(r, e, kind, name, args, src, True)
     ok = ok and _scells(f) == src
@@ -348,6 +376,9 @@ def concrete(fn, params, args):
         e = re.split(margs[0], text) if kind == "pieces_regex" else _call(text, name, kind, margs, w)
     except Exception as ex:
         return {"ok": None, "note": "str itself raises %r" % (ex,)}
+    if params.get("prime"):
+        _prime(f, name, kind, margs, w)
+        call += " [after a call in the other mode / with other arguments]"
     try:
         r = _call(f, name, kind, margs, w)
     except Exception as ex:
